@@ -415,7 +415,7 @@ def composed_constructions(pool, rng, thorough):
     out = []
     small = [p for p in pool if int(np.prod(p[2])) <= 9]
     par = [p for p in small if p[1] > 0]
-    n_each = 70 if thorough else 45
+    n_each = 70 if thorough else 40
 
     def pick(l):
         return l[rng.randrange(len(l))]
@@ -567,7 +567,7 @@ def gen_points(spec, np_, rates, rng, thorough, large=1e3):
     points, seeded random.  Each point: (kind, values, exact|None) where exact
     is a list of Pt (only when `rates` is known and the kind is exact)."""
     pts = []
-    mult = 40 if thorough else 2
+    mult = 40 if thorough else 1
     if np_ == 0:
         return [('const', [], [] if rates is not None else None)]
 
@@ -1089,9 +1089,60 @@ def parse_qmat(s):
     return out.reshape(n, m)
 
 
+def replay(ck: Check):
+    """./check C18 --replay replays/C18/<hash>.json : re-evaluates the recorded
+    construction (at the recorded parameter vector when there is one) with the
+    same oracles on the current tree."""
+    import ast
+    import json
+    body = json.loads(open(ck.replay_path).read())
+    rp = body.get('replay', {})
+    print(f'replaying {body.get("signature")}: {body.get("what", "")[:200]}')
+    n = 0
+    if 'spec' in rp:
+        spec = ast.literal_eval(rp['spec'])
+        try:
+            g = build(spec)
+            np_ = g.num_params
+        except Exception as e:
+            np_ = 0
+        if 'params' in rp and isinstance(rp['params'], list):
+            pts = [(rp.get('point_kind', 'replay'), [float(x) for x in rp['params']], None)]
+        else:
+            pts = gen_points(spec, np_, None, random.Random(body.get('seed', 0)), False)
+        r = run_task((0, spec, pts, int(body.get('seed', 0)) + 1, False, False))
+        if 'error' in r:
+            raise InfraError(r['error'])
+        for sig, what, rep, f in r['viol']:
+            n += 1
+            ck.violation(sig, what, rep, found_input=f)
+        ck.count(('replay', rp['spec']))
+    elif 'a' in rp and 'b' in rp:
+        a, b = build(ast.literal_eval(rp['a'])), build(ast.literal_eval(rp['b']))
+        sa = outer_class(ast.literal_eval(rp['a']))
+        ck.count(('replay', rp['a'], rp['b']))
+        if a == b and hash(a) != hash(b):
+            n += 1
+            ck.violation(f'hash-eq:{sa}', 'equal gates hash differently', rp)
+        if a == b and 'params' in rp:
+            U1 = np.asarray(a.get_unitary(rp['params']).numpy)
+            U2 = np.asarray(b.get_unitary(rp['params']).numpy)
+            if float(np.abs(U1 - U2).max()) > 1e-8:
+                n += 1
+                ck.violation(f'eq-different-unitary:{sa}', 'equal gates, different unitaries', rp)
+    else:
+        print('this replay file records a broken obligation / correspondence / sweep; rerun '
+              f'VERIF_SEED={body.get("seed")} ./check C18 --tier {body.get("tier")}')
+    print(f'replay reproduced {n} oracle failure(s)')
+    ck.coverage['rule'] = 'replay of one recorded case'
+    ck.sample({'replayed': body.get('signature')})
+
+
 def run(ck: Check):
     warnings.simplefilter('ignore')
     from bqskit.ir.circuit import Circuit  # noqa: F401 (import order)
+    if ck.replay_path:
+        return replay(ck)
     thorough = ck.tier == 'thorough'
     rng = ck.rng
     import time as _t
